@@ -260,9 +260,123 @@ def r07c(ctx, run):
               "finish() must run is_safe_to_compile over every finished location and record any unsafe one")
 
 
+# ---- R07.d: what the checker accepts, the code generator can build --------------------------------------------
+def _ty_samples():
+    from absint import Variant, Term
+    sub = Variant("TySym", {"n": "sub"})
+    return {
+        "IInt": Variant("Ty::IInt", {"0": 32}), "UInt": Variant("Ty::UInt", {"0": 32}), "Float": Variant("Ty::Float", {"0": 64}),
+        "Bool": Variant("Ty::Bool"), "Char": Variant("Ty::Char"), "String": Variant("Ty::String"), "Type": Variant("Ty::Type"),
+        "AnonArray": Variant("Ty::AnonArray", {"size": 2, "sub_ty": sub}), "ConcreteArray": Variant("Ty::ConcreteArray", {"size": 2, "sub_ty": sub}),
+        "Slice": Variant("Ty::Slice", {"sub_ty": sub}), "Pointer": Variant("Ty::Pointer", {"mutable": False, "sub_ty": sub}),
+        "Any": Variant("Ty::Any"), "RawPtr": Variant("Ty::RawPtr", {"mutable": False}), "RawSlice": Variant("Ty::RawSlice"),
+        "ConcreteFunction": Variant("Ty::ConcreteFunction", {"param_tys": [], "return_ty": sub, "fn_loc": Term("loc")}),
+        "FunctionPointer": Variant("Ty::FunctionPointer", {"param_tys": [], "return_ty": sub}),
+        "AnonStruct": Variant("Ty::AnonStruct", {"members": [Term("m")]}), "ConcreteStruct": Variant("Ty::ConcreteStruct", {"uid": 1, "members": [Term("m")]}),
+        "Enum": Variant("Ty::Enum", {"uid": 1, "variants": [Term("v")]}), "Optional": Variant("Ty::Optional", {"sub_ty": sub}),
+        "ErrorUnion": Variant("Ty::ErrorUnion", {"error_ty": sub, "payload_ty": sub}),
+    }
+
+
+def r07d(ctx, run):
+    """Engler's belief/use contradiction across crates: every `unreachable!()` arm of the operator code generator states
+    the belief 'the type checker rejects this combination'; the belief is compared with what TypedOp::can_perform accepts"""
+    from absint import Interp, Variant, Term, Obj, Panic, CannotEstablish
+    import c08
+    cp = [f for f in ctx.syn.fns_in("hir/src/common/ty.rs") if f.qual == "BinaryOp::can_perform" and f.body is not None]
+    if len(cp) != 1:
+        raise LookupError("impl TypedOp for BinaryOp: can_perform")
+    cp = cp[0]
+    _, en = ctx.syn.item("enum", "BinaryOp", "hir/src/body.rs")
+    ops = [v["n"] for v in en["variants"]]
+    samples = _ty_samples()
+
+    def accepted(op, kind):
+        it = Interp(methods={"absolute_ty": lambda i, r, a: r})
+        names = cp.param_names()
+        return it.run_fn(cp, {"self": Variant("BinaryOp::" + op), names[-1]: samples[kind]})
+
+    # (1) the logical operators never reach the numeric selector
+    cb = ctx.syn.fn("FunctionCompiler::compile_binary", "codegen/src/compiler/functions.rs")
+    first = [m for m in synq.matches_on(cb.body) if canon(m["e"]) == "op"]
+    early = {}
+    if first:
+        for h, p, g, b, arm in synq.match_table(first[0]):
+            if h and "return" in canon(b):
+                early[synq.last_seg(h)] = canon(b)
+    for op, helper_fn in (("LAnd", "logical_and"), ("LOr", "logical_or")):
+        run.check(op in early and helper_fn in early[op], cb.site(), "%s is compiled by %s before operand types are looked at" % (op, helper_fn), cb.qual, "logical:" + op,
+                  cb.file, cb.ln, "%s must be dispatched to %s at the top of compile_binary (compile_num_binary has no arm for it)" % (op, helper_fn))
+    # (2) numeric classes: float / int / bool
+    nb = ctx.syn.fn("FunctionCompiler::compile_num_binary")
+    for cls, kinds, float_, signed in (("float", ("Float",), True, True), ("integer", ("IInt", "UInt"), False, True), ("bool/char", ("Bool", "Char"), False, False)):
+        for op in ops:
+            if op in ("LAnd", "LOr"):
+                continue
+            try:
+                acc = [k for k in kinds if accepted(op, k)]
+            except (Panic, CannotEstablish) as c:
+                run.finding(cp.qual, "accept:%s:%s" % (op, cls), cp.file, cp.ln, "cannot establish whether %s is accepted on %s: %s" % (op, cls, getattr(c, "what", c)))
+                continue
+            it = c08.I()
+            env = {"self": Obj("self", builder=c08.BUILDER), "lhs": Term("lhs"), "rhs": Term("rhs"),
+                   "ty": c08.numty("F64" if float_ else "I32", float_, signed), "op": Variant("hir::BinaryOp::" + op)}
+            try:
+                it.run_fn(nb, env)
+                builds = True
+            except Panic:
+                builds = False
+            if acc and not builds:
+                run.finding(nb.qual, "accepted-but-unbuildable:%s:%s" % (op, cls), nb.file, nb.ln,
+                            "the type checker accepts `%s` on %s operands (can_perform(%s) is true for %s) but compile_num_binary's %s arm is unreachable!(): a "
+                            "program without any diagnostic panics in code generation instead of being built" % (op, cls, op, acc, "float" if float_ else "integer"))
+            else:
+                run.ok(nb.site(), "%s on %s: accepted=%s, code generator %s" % (op, cls, bool(acc), "has an arm" if builds else "believes it unreachable"))
+    # (3) == / != on non-numeric kinds: compile_complex_compare's per-kind arm
+    cc = ctx.syn.fn("FunctionCompiler::compile_complex_compare", "codegen/src/compiler/functions.rs")
+    ms = [m for m in synq.matches_on(cc.body) if "absolute_ty" in canon(m["e"])]
+    if len(ms) != 1:
+        raise LookupError("match ty.absolute_ty() in compile_complex_compare")
+    arms = {}
+    for h, p, g, b, arm in synq.match_table(ms[0]):
+        if h:
+            bb = synq.strip_block(b)
+            arms[synq.last_seg(h)] = (bb.get("k") == "macro" and bb["name"].rsplit("::", 1)[-1] in ("unreachable", "todo", "unimplemented", "panic"), arm["ln"])
+    # kinds handled before the match: number-typed (FinalTy::Number) and zero-sized
+    conv = ctx.syn.fn("calc_single", "codegen/src/convert.rs")
+    fm = [m for m in synq.matches_on(conv.body) if canon(m["e"]) == "ty.as_ref()"]
+    number_kinds = set()
+    for h, p, g, b, arm in synq.match_table(fm[0]) if fm else []:
+        if h and ("FinalTy::Number" in canon(b) or "finalize_int" in canon(b)):
+            number_kinds.add(synq.last_seg(h))
+    if not {"IInt", "UInt", "Float", "Bool"} <= number_kinds:
+        raise LookupError("number-typed kinds in convert::calc_single: %s" % sorted(number_kinds))
+    for kind in samples:
+        if kind in number_kinds:
+            continue
+        for op in ("Eq", "Ne"):
+            try:
+                acc = accepted(op, kind)
+            except (Panic, CannotEstablish) as c:
+                run.finding(cp.qual, "accept:%s:%s" % (op, kind), cp.file, cp.ln, "cannot establish whether %s is accepted on %s: %s" % (op, kind, getattr(c, "what", c)))
+                continue
+            if kind not in arms:
+                run.finding(cc.qual, "no-arm:%s" % kind, cc.file, ms[0]["ln"], "compile_complex_compare has no arm for Ty::%s" % kind)
+                continue
+            panics, ln = arms[kind]
+            if acc and panics:
+                run.finding(cc.qual, "accepted-but-unbuildable:%s:%s" % (op, kind), cc.file, ln,
+                            "the type checker accepts `%s` between two values of the same %s type (can_perform is true and max(T, T) = T) but the code generator's "
+                            "arm for Ty::%s is unreachable!(): a program without any diagnostic panics in code generation instead of being built"
+                            % ("==" if op == "Eq" else "!=", kind, kind))
+            else:
+                run.ok(cc.site(ln), "%s on %s: accepted=%s, code generator %s" % (op, kind, acc, "believes it unreachable" if panics else "has an arm"))
+
+
 def rules(ctx):
     return [
         Rule("R07.a", "the error gate (both diagnostic sources, exit 1) and the unsafe assert dominate every code-generation call; comptime evaluation is guarded", 12, r07a),
         Rule("R07.b", "every TyDiagnostic literal names its expression (6+1 enumerated exceptions)", 75, r07b),
+        Rule("R07.d", "operator/type combinations the checker accepts are ones the code generator has an arm for (belief vs use, across crates)", 80, r07d),
         Rule("R07.c", "is_safe_to_compile: complete error set, membership first, Missing/unknown/unlabelled unsafe; severity mapping", 11, r07c),
     ]
